@@ -252,6 +252,11 @@ Definition xlsx_path (r : str) : str :=
   else if starts_with s_xl_slash r then r
   else s_xl_slash ++ r.
 
+(* key.prefix().is_some() && key.local_name() == b"id" (since the fix for F30: the relationship
+   id under whatever prefix the document binds to the relationships namespace) *)
+Definition is_rel_id (k : str) : bool :=
+  match after_colon k with Some l => str_eqb l a_id | None => false end.
+
 (* the attribute loop of a <sheet> element *)
 Fixpoint sheet_attrs (rels : smap) (a : attrs) (name path : str) (v : vis)
   : outcome (str * str * vis) :=
@@ -264,7 +269,7 @@ Fixpoint sheet_attrs (rels : smap) (a : attrs) (name path : str) (v : vis)
       else if str_eqb val v_hidden then sheet_attrs rels r name path Hidden
       else if str_eqb val v_veryHidden then sheet_attrs rels r name path VeryHidden
       else Err E_UNREC
-    else if str_eqb k a_rid || str_eqb k a_relid then
+    else if is_rel_id k then
       match map_get val rels with
       | None => Err E_RELNF
       | Some t => sheet_attrs rels r name (xlsx_path t) v
@@ -291,6 +296,7 @@ Fixpoint xlsx_wb_run (rels : smap) (evs : list event) (mode : xmode) (st : parse
     | XName q nm val =>
       match ev with
       | Text t => xlsx_wb_run rels r (XName q nm (val ++ t)) st
+      | CData t => xlsx_wb_run rels r (XName q nm (val ++ t)) st
       | End n => if str_eqb n q then xlsx_wb_run rels r XMain (add_name st nm val)
                  else xlsx_wb_run rels r mode st
       | _ => xlsx_wb_run rels r mode st
@@ -384,16 +390,15 @@ Definition read_len (s : bytes) : outcome (N * bytes) :=
   let '(b3, s3) := x3 in
   Ok (l2 + (b3 mod 128) * 2097152, s3).
 
-(* fill_buffer(buf): the buffer is reallocated (zeroed) only when too short, so bytes of earlier
-   records survive behind the new body; returns (buffer, len, rest of the part) *)
-Definition fill_buffer (buf s : bytes) : outcome (bytes * N * bytes) :=
+(* fill_buffer: the record body.  The reader keeps one buffer and only grows it, so bytes of
+   earlier records survive behind the new body; since the hardening commits every access is
+   bounded by the length fill_buffer returns, so only the body itself is modelled *)
+Definition read_body (s : bytes) : outcome (bytes * bytes) :=
   do x <- read_len s;
   let '(n, s1) := x in
-  if len s1 <? n then Err E_IO else
-  let stale := if len buf <? n then [] else drop n buf in
-  Ok (take n s1 ++ stale, n, drop n s1).
+  if len s1 <? n then Err E_IO else Ok (take n s1, drop n s1).
 
-(* &b[from..to] *)
+(* &b[from..to] with the bounds established by the callers' length checks *)
 Definition slice (b : bytes) (from to : N) : outcome bytes :=
   if (from <=? to) && (to <=? len b) then Ok (take (to - from) (drop from b)) else Panic.
 
@@ -410,55 +415,60 @@ Definition bom_prefix (b : bytes) : bool :=
   | _ => false
   end.
 
-(* the BrtBundleSh arm; None = the record is skipped (relationship id NULL) *)
-Definition bundle_sh (rels : smap) (buf : bytes) (n : N) : outcome (option (meta * str)) :=
-  do s8 <- slice buf 8 n;
-  do rel_len <- read_u32 s8;
+Definition E_WIDESTR : N := 6.
+(* wide_str: (text, bytes used); both length checks are errors *)
+Definition wide_str_m (buf : bytes) : outcome (str * N) :=
+  if len buf <? 4 then Err E_WIDESTR else Utf16.wide_str buf.
+
+(* the BrtBundleSh arm on the record body; None = the record is skipped (relationship id NULL) *)
+Definition bundle_sh (rels : smap) (d : bytes) : outcome (option (meta * str)) :=
+  let n := len d in
+  if n <? 12 then Err E_UNREC else                       (* check_len *)
+  do rel_len <- read_u32 (drop 8 d);
   if rel_len =? 4294967295 then Ok None else
   let rl := rel_len * 2 in
-  do relid_b <- slice buf 12 (12 + rl);
+  if n <? 12 + rl then Err E_WIDESTR else
+  let relid_b := take rl (drop 12 d) in
   if bom_prefix relid_b then Err E_UNMODELLED else
   match map_get (enc_decode relid_b) rels with
-  | None => Panic                                        (* relationships[..] *)
+  | None => Err E_UNREC                                  (* relationships.get(..).ok_or(..) *)
   | Some target =>
     let path := s_xl_slash ++ target in
-    do hs <- read_u32 buf;
+    do hs <- read_u32 d;
     match xlsb_vis hs with
     | None => Err E_UNREC
     | Some v =>
       match kind_of_path path with
       | None => Err E_UNREC
       | Some k =>
-        do nm_b <- slice buf (12 + rl) n;
-        do w <- Utf16.wide_str nm_b;
+        do w <- wide_str_m (drop (12 + rl) d);
         Ok (Some (mkMeta (fst w) v k, path))
       end
     end
   end.
 
-(* first loop of read_workbook: up to BrtEndBundleShs; buf is cleared after every iteration
-   except the last one *)
+(* first loop of read_workbook: up to BrtEndBundleShs *)
 Fixpoint xlsb_loop1 (fuel : nat) (rels : smap) (s : bytes) (st : parsed)
-  : outcome (parsed * bytes * bytes) :=
+  : outcome (parsed * bytes) :=
   match fuel with
   | O => OutOfFuel
   | S f =>
     do x <- read_type s;
     let '(typ, s1) := x in
-    do y <- fill_buffer [] s1;
-    let '(buf, n, s2) := y in
+    do y <- read_body s1;
+    let '(d, s2) := y in
     if typ =? 153 then                                   (* 0x0099 BrtWbProp *)
-      match buf with
-      | [] => Panic
+      match d with
+      | [] => Err E_UNREC                                (* check_len("BrtWbProp", len, 1) *)
       | b0 :: _ => xlsb_loop1 f rels s2 (set_1904 st (N.odd b0))
       end
     else if typ =? 156 then                              (* 0x009C BrtBundleSh *)
-      do r <- bundle_sh rels buf n;
+      do r <- bundle_sh rels d;
       match r with
       | None => xlsb_loop1 f rels s2 st
       | Some (m, path) => xlsb_loop1 f rels s2 (add_sheet st m path)
       end
-    else if typ =? 144 then Ok (st, s2, buf)             (* 0x0090 BrtEndBundleShs *)
+    else if typ =? 144 then Ok (st, s2)                  (* 0x0090 BrtEndBundleShs *)
     else xlsb_loop1 f rels s2 st
   end.
 
@@ -476,7 +486,6 @@ Fixpoint nthN (A : Type) (l : list A) (i : N) : option A :=
 
 (* one XTI of BrtExternSheet -> the name calamine puts in extern_sheets *)
 Definition xti_name (sheets : list str) (xti : bytes) : outcome str :=
-  if len xti <? 8 then Panic else
   do p <- read_i32 (drop 4 xti);
   Ok (if (p =? -2)%Z then s_thiswb
       else if (p =? -1)%Z then s_invalid
@@ -488,6 +497,10 @@ Definition xti_name (sheets : list str) (xti : bytes) : outcome str :=
 Definition firstN (A : Type) (n : N) (l : list A) : list A :=
   firstn (N.to_nat (N.min n (len l))) l.
 
+(* slice::chunks_exact(k): only the complete pieces *)
+Definition chunks_exact (k : nat) (l : bytes) : list bytes :=
+  filter (fun c => Nat.eqb (length c) k) (chunks k l).
+
 Definition is_end_type (t : N) : bool :=
   (t =? 157) || (t =? 549) || (t =? 397) || (t =? 384) || (t =? 154) || (t =? 594)
   || (t =? 553) || (t =? 155) || (t =? 132).
@@ -495,20 +508,27 @@ Definition is_end_type (t : N) : bool :=
 Section Xlsb.
 Variable show_f64 : N -> list N.
 
-(* the BrtName arm *)
-Definition brt_name (buf : bytes) (n : N) (ext : list str) (names : list (str * str))
+(* C14's decoder model still has the panic sites of the old parse_formula; the hardening turned
+   all of them into errors (check_len / get / checked_sub) *)
+Definition ptg_bridge (o : outcome str) : outcome str :=
+  match o with Panic => Err E_UNREC | x => x end.
+
+(* the BrtName arm on the record body *)
+Definition brt_name (d : bytes) (ext : list str) (names : list (str * str))
   : outcome (str * str) :=
-  do nb <- slice buf 9 n;
-  do w <- Utf16.wide_str nb;
+  let n := len d in
+  if n <? 9 then Err E_UNREC else
+  do w <- wide_str_m (drop 9 d);
   let '(name, sl) := w in
-  do t <- slice_from buf (9 + sl);
-  do rl <- read_u32 t;
-  do rgce <- slice buf (13 + sl) (13 + sl + rl);
-  do f <- Ptg.xlsb_parse_formula show_f64 (Ptg.Build_xlsb_env ext (map fst names)) rgce;
+  if n <? 13 + sl then Err E_UNREC else
+  do rl <- read_u32 (drop (9 + sl) d);
+  if n <? 13 + sl + rl then Err E_UNREC else
+  let rgce := take rl (drop (13 + sl) d) in
+  do f <- ptg_bridge (Ptg.xlsb_parse_formula show_f64 (Ptg.Build_xlsb_env ext (map fst names)) rgce);
   Ok (name, f).
 
 (* second loop: BrtExternSheet, BrtName, up to one of the records that follow the names *)
-Fixpoint xlsb_loop2 (fuel : nat) (s buf : bytes) (sheets ext : list str)
+Fixpoint xlsb_loop2 (fuel : nat) (s : bytes) (sheets ext : list str)
          (names : list (str * str)) : outcome (list (str * str)) :=
   match fuel with
   | O => OutOfFuel
@@ -516,28 +536,28 @@ Fixpoint xlsb_loop2 (fuel : nat) (s buf : bytes) (sheets ext : list str)
     do x <- read_type s;
     let '(typ, s1) := x in
     if typ =? 362 then                                   (* 0x016A BrtExternSheet *)
-      do y <- fill_buffer buf s1;
-      let '(buf', _, s2) := y in
-      do c4 <- slice buf' 0 4;
-      do cxti <- read_u32 c4;
-      do ext' <- map_o (xti_name sheets) (firstN cxti (chunks 12 (drop 4 buf')));
-      xlsb_loop2 f s2 buf' sheets ext' names
+      do y <- read_body s1;
+      let '(d, s2) := y in
+      if len d <? 4 then Err E_UNREC else
+      do cxti <- read_u32 d;
+      do ext' <- map_o (xti_name sheets) (firstN cxti (chunks_exact 12 (drop 4 d)));
+      xlsb_loop2 f s2 sheets ext' names
     else if typ =? 39 then                               (* 0x0027 BrtName *)
-      do y <- fill_buffer buf s1;
-      let '(buf', n, s2) := y in
-      do nf <- brt_name buf' n ext names;
-      xlsb_loop2 f s2 buf' sheets ext (names ++ [nf])
+      do y <- read_body s1;
+      let '(d, s2) := y in
+      do nf <- brt_name d ext names;
+      xlsb_loop2 f s2 sheets ext (names ++ [nf])
     else if is_end_type typ then Ok names
     else
-      do y <- fill_buffer buf s1;
-      let '(buf', _, s2) := y in
-      xlsb_loop2 f s2 buf' sheets ext names
+      do y <- read_body s1;
+      let '(_, s2) := y in
+      xlsb_loop2 f s2 sheets ext names
   end.
 
 Definition xlsb_read_workbook (rels : smap) (s : bytes) : outcome parsed :=
   do r <- xlsb_loop1 (S (length s)) rels s parsed0;
-  let '(st, s1, buf) := r in
-  do names <- xlsb_loop2 (S (length s1)) s1 buf (map fst (p_paths st)) [] [];
+  let '(st, s1) := r in
+  do names <- xlsb_loop2 (S (length s1)) s1 (map fst (p_paths st)) [] [];
   Ok (set_names st names).
 
 Definition xlsb_open (rel_evs : list event) (s : bytes) : outcome parsed :=
@@ -549,9 +569,11 @@ End Xlsb.
 
 Definition E_LEN_ : N := 1.
 Definition E_PASSWORD_ : N := 5.
+Definition E_EOS_ : N := 2.
 
 (* parse_sheet_metadata (BoundSheet8), Biff8 *)
 Definition xls_sheet_metadata (data : bytes) : outcome (N * meta) :=
+  if len data <? 6 then Err E_LEN_ else
   do pos <- read_u32 data;
   do v <- of_option (nth_error data 4);
   do vv <- match N.land v 63 with
@@ -583,27 +605,31 @@ Definition is_ptg (p a b c : N) : bool := (p =? a) || (p =? b) || (p =? c).
 Definition u16_in (b : bytes) (from : N) : outcome N :=
   do s <- slice b from (from + 2); read_u16 s.
 
-(* parse_defined_names: one token; `$` unconditionally, the column field is not masked *)
+(* parse_defined_names: one token, rendered through utils::push_cell_ref; a token shorter than
+   its fixed operands is an error *)
 Definition xls_defined_name (rgce : bytes) : outcome (option N * str) :=
   match rgce with
   | [] => Ok (None, s_empty_rgce)
   | ptg :: _ =>
+    let expected := if is_ptg ptg 58 90 122 then 7
+                    else if is_ptg ptg 59 91 123 then 11
+                    else if is_ptg ptg 60 92 124 || is_ptg ptg 61 93 125 then 3 else 1 in
+    if len rgce <? expected then Err E_LEN_ else
     if is_ptg ptg 58 90 122 then                          (* PtgRef3d *)
       do ixti <- u16_in rgce 1;
-      do col <- u16_in rgce 5;
-      do f1 <- Col26.push_column col [DOLLAR];
       do row <- u16_in rgce 3;
-      Ok (Some ixti, f1 ++ [DOLLAR] ++ Col26.dec (row + 1))
+      do col <- u16_in rgce 5;
+      do f <- Col26.push_cell_ref row col [];
+      Ok (Some ixti, f)
     else if is_ptg ptg 59 91 123 then                     (* PtgArea3d *)
       do ixti <- u16_in rgce 1;
-      do c1 <- u16_in rgce 7;
-      do f1 <- Col26.push_column c1 [DOLLAR];
       do r1 <- u16_in rgce 3;
-      let f2 := f1 ++ [DOLLAR] ++ Col26.dec (r1 + 1) ++ [COLON; DOLLAR] in
-      do c2 <- u16_in rgce 9;
-      do f3 <- Col26.push_column c2 f2;
+      do c1 <- u16_in rgce 7;
+      do f1 <- Col26.push_cell_ref r1 c1 [];
       do r2 <- u16_in rgce 5;
-      Ok (Some ixti, f3 ++ [DOLLAR] ++ Col26.dec (r2 + 1))
+      do c2 <- u16_in rgce 9;
+      do f2 <- Col26.push_cell_ref r2 c2 (f1 ++ [COLON]);
+      Ok (Some ixti, f2)
     else if is_ptg ptg 60 92 124 || is_ptg ptg 61 93 125 then   (* PtgRefErr3d / PtgAreaErr3d *)
       do ixti <- u16_in rgce 1;
       Ok (Some ixti, s_ref_bang)
@@ -612,17 +638,15 @@ Definition xls_defined_name (rgce : bytes) : outcome (option N * str) :=
 
 (* the Lbl arm *)
 Definition xls_lbl (d : bytes) : outcome (str * (option N * str)) :=
-  do cch <- of_option (nth_error d 3);
-  do t4 <- slice_from d 4;
-  do cce <- read_u16 t4;
-  do t14 <- slice_from d 14;
-  let name := read_ustr_nocch t14 cch in
-  if len d <? cce then Panic else
+  if len d <? 14 then Err E_LEN_ else
+  let cch := nth 3 d 0 in
+  do cce <- read_u16 (drop 4 d);
+  if len d <? 14 + cce then Err E_LEN_ else
+  let name := read_ustr_nocch (drop 14 d) cch in
   do f <- xls_defined_name (drop (len d - cce) d);
   Ok (name, f).
 
 Definition xls_xti (c : bytes) : outcome (N * N * N) :=
-  if len c <? 6 then Panic else
   do a <- read_u16 c;
   do b <- read_u16 (drop 2 c);
   do e <- read_u16 (drop 4 c);
@@ -652,20 +676,23 @@ Fixpoint xls_globals (recs : list (outcome rec_item)) (st : xls_state) : outcome
   | Ok (t, d, c) :: rest =>
     if t =? 47 then Err E_PASSWORD_                                  (* FilePass *)
     else if t =? 66 then                                             (* CodePage *)
+      if len d <? 2 then Err E_LEN_ else
       do cp <- read_u16 d;
       if cp =? 1200 then xls_globals rest st else Err E_UNMODELLED
     else if t =? 34 then                                             (* Date1904 *)
+      if len d <? 2 then Err E_LEN_ else
       do v <- read_u16 d;
       xls_globals rest (if v =? 1
                         then mkXlsState (xg_sheets st) (xg_names st) (xg_xtis st) true else st)
     else if t =? 1054 then                                           (* Format *)
-      if len d <? 4 then Err E_LEN_ else if len d <? 5 then Panic else xls_globals rest st
+      if len d <? 5 then Err E_LEN_ else xls_globals rest st
     else if t =? 224 then                                            (* XF *)
       if len d <? 4 then Err E_LEN_ else xls_globals rest st
     else if t =? 133 then                                            (* BoundSheet8 *)
       do pm <- xls_sheet_metadata d;
       xls_globals rest (mkXlsState (xg_sheets st ++ [pm]) (xg_names st) (xg_xtis st) (xg_1904 st))
     else if t =? 2057 then                                           (* BOF *)
+      if len d <? 2 then Err E_LEN_ else
       do v <- read_u16 d;
       do dt <- (if 4 <=? len d then read_u16 (drop 2 d) else Ok 0);
       if bof_is_biff8 v dt then xls_globals rest st else Err E_UNMODELLED
@@ -673,9 +700,9 @@ Fixpoint xls_globals (recs : list (outcome rec_item)) (st : xls_state) : outcome
       do nf <- xls_lbl d;
       xls_globals rest (mkXlsState (xg_sheets st) (xg_names st ++ [nf]) (xg_xtis st) (xg_1904 st))
     else if t =? 23 then                                             (* ExternSheet *)
+      if len d <? 2 then Err E_LEN_ else
       do cxti <- read_u16 d;
-      do t2 <- slice_from d 2;
-      do xs <- map_o xls_xti (firstN cxti (chunks 6 t2));
+      do xs <- map_o xls_xti (firstN cxti (chunks_exact 6 (drop 2 d)));
       xls_globals rest (mkXlsState (xg_sheets st) (xg_names st) (xg_xtis st ++ xs) (xg_1904 st))
     else if t =? 252 then                                            (* SST *)
       do _ <- parse_sst (d, conts_of c);
@@ -708,7 +735,7 @@ Definition xls_resolve (st : xls_state) : list (str * str) :=
    substreams themselves are C02's domain and assumed well formed) *)
 Definition xls_parse_workbook (stream : bytes) : outcome parsed :=
   do st <- xls_globals (records stream) xls_state0;
-  if existsb (fun pm => len stream <? fst pm) (xg_sheets st) then Panic else
+  if existsb (fun pm => len stream <? fst pm) (xg_sheets st) then Err E_EOS_ else
   Ok (mkParsed (map snd (xg_sheets st)) [] (xls_resolve st) (xg_1904 st)).
 
 (* ===================================================================================== *)
@@ -754,7 +781,7 @@ Fixpoint ods_run (evs : list event) (mode : omode) (st : ods_state) : outcome od
   | [] =>
     match mode with
     | OMain => Ok st
-    | OTable _ _ => OutOfFuel          (* read_table has no Eof arm: the real loop never ends *)
+    | OTable _ _ => Err E_XML_EOF      (* OdsError::Eof("table:table") *)
     | ONames _ => Err E_MISMATCH
     end
   | ev :: r =>
@@ -779,7 +806,8 @@ Fixpoint ods_run (evs : list event) (mode : omode) (st : ods_state) : outcome od
         else if str_eqb n o_nexprs then
           ods_run r OMain (mkOds (od_meta st) acc (od_styles st) (od_style_name st))
         else Err E_MISMATCH
-      | _ => Err E_MISMATCH
+      | Text _ | Other => ods_run r mode st      (* white space, comments (since the fix) *)
+      | CData _ => Err E_MISMATCH
       end
     | OMain =>
       match ev with
@@ -969,14 +997,16 @@ Definition no_slash (s : str) : bool := forallb (fun c => negb (c =? SLASH)) s.
 
 Definition xlsx_kind_ok (k : kind) : bool := match k with Vba => false | _ => true end.
 
+Definition keys_ok (a : attrs) : bool :=
+  forallb (fun kv => negb (str_eqb (fst kv) a_name || str_eqb (fst kv) a_state || is_rel_id (fst kv))) a.
+
 Definition xs_legal (rels : smap) (s : meta) (ch : xs_choice) : bool :=
   xlsx_kind_ok (m_kind s)
   && match map_get (xs_rid ch) rels with
      | Some t => str_eqb t (xlsx_target (xs_tstyle ch) (m_kind s) (xs_file ch))
      | None => false
      end
-  && attr_free [a_name; a_state; a_rid; a_relid] (xs_pre ch)
-  && attr_free [a_name; a_state; a_rid; a_relid] (xs_post ch).
+  && keys_ok (xs_pre ch) && keys_ok (xs_post ch).
 Definition xn_legal (ch : xn_choice) : bool :=
   attr_free [a_name] (xn_pre ch) && attr_free [a_name] (xn_post ch).
 
@@ -989,23 +1019,14 @@ Fixpoint forallb2 (A B : Type) (f : A -> B -> bool) (l : list A) (m : list B) : 
 
 Definition xlsx_legal (c : xlsx_choice) (wb : workbook str) : bool :=
   no_colon (xc_pfx c)
+  && no_colon (xc_rpfx c) && negb (match xc_rpfx c with [] => true | _ => false end)
   && forallb junk_ok_xlsx (xc_junk c)
   && attr_free [a_date1904] (xc_pr_extra c)
   && forallb2 (xs_legal (rels_map (xc_rels c))) (wb_sheets wb) (xc_sheets c)
   && forallb2 (fun _ ch => xn_legal ch) (wb_names wb) (xc_names c).
 
-(* known classes of the xlsx reader:
-   1 (F30)  the relationship-id attribute of <sheet> is matched by the literal qualified names
-            "r:id" / "relationships:id": any other prefix leaves the path empty and the open fails
-   2        a defined name whose text is written as a CDATA section is reported with empty text *)
-Definition rpfx_known (p : str) : bool := str_eqb p a_r || str_eqb p a_relationships.
-Definition known_xlsx (c : xlsx_choice) (wb : workbook str) : option N :=
-  if negb (rpfx_known (xc_rpfx c)) && negb (match wb_sheets wb with [] => true | _ => false end)
-  then Some 1
-  else if existsb (fun nc => xn_cdata (snd nc) && negb (match snd (fst nc) with [] => true | _ => false end))
-                  (combine (wb_names wb) (xc_names c))
-  then Some 2
-  else None.
+(* no known class is left for xlsx: F30 (relationship-id prefix) and the CDATA defined name were
+   repaired (fix: commits on branch c16-fixes) *)
 
 Definition spec_names_text (wb : workbook str) : list (str * str) := wb_names wb.
 
@@ -1087,7 +1108,7 @@ Definition bs_legal (rels : smap) (s : meta) (ch : bs_choice) : bool :=
   xlsb_kind_ok (m_kind s) && name_ok (m_name s) && name_ok (bs_rid ch)
   && (bs_tabid ch <=? 4294967295)
   && (Utf16.utf16_len (m_name s) <? 65536) && (Utf16.utf16_len (bs_rid ch) <? 65536)
-  && negb (match bs_rid ch with 65279 :: _ => true | _ => false end)
+  && negb (bom_prefix (Utf16.bytes_le_of_units (Utf16.utf16_encode (bs_rid ch))))
   && match map_get (bs_rid ch) rels with
      | Some t => str_eqb t (xlsb_target (m_kind s) (bs_file ch))
      | None => false
@@ -1116,7 +1137,7 @@ Fixpoint names_wf_xlsb (ext : list str) (before : list str) (l : list (str * Ptg
   | (n, e) :: r =>
     Ptg.wf_xlsb (Ptg.Build_xlsb_env ext before) e && name_ok n
     && (Utf16.utf16_len n <? 65536)
-    && (len (Ptg.encode_xlsb e) <? 268435456)
+    && (len (Ptg.encode_xlsb e) <? 268000000)
     && names_wf_xlsb ext (before ++ [n]) r
   end.
 End XlsbSpec.
@@ -1283,11 +1304,7 @@ Definition xls_legal (c : xls_choice) (wb : workbook xref) : bool :=
   && negb ((4 <? len (lc_tail c)) && (u16_at (lc_tail c) 0 =? 60))
   && forallb (fun ch => ls_pos ch <=? len (xls_stream c wb)) (lc_sheets c).
 
-(* known class of the xls reader:
-   1  parse_defined_names prints `$` unconditionally and does not mask the relative flags out of
-      the column field: a defined name with a relative row or column is reported wrongly *)
-Definition known_xls (c : xls_choice) (wb : workbook xref) : option N :=
-  if forallb (fun n => xref_abs (snd n)) (wb_names wb) then None else Some 1.
+(* no known class is left for xls (relative defined names: repaired) *)
 
 Definition spec_names_xls (c : xls_choice) (wb : workbook xref) : list (str * str) :=
   map (fun n => (fst n, spec_xti_sheet (wb_sheets wb) (lc_xtis c) (xref_ixti (snd n))
@@ -1383,21 +1400,17 @@ Definition os_legal (styles : list (str * option bool)) (s : meta) (ch : os_choi
 Definition on_legal (ch : on_choice) : bool :=
   attr_free [o_tname; o_cra; o_expr] (on_pre ch) && attr_free [o_tname; o_cra; o_expr] (on_post ch).
 
+Definition names_junk_ok (e : event) : bool :=
+  match e with Text _ | Other => true | _ => false end.
+
 Definition ods_legal (c : ods_choice) (wb : workbook str) : bool :=
   forallb junk_ok_ods (oc_junk c)
   && forallb2 (os_legal (oc_styles c)) (wb_sheets wb) (oc_sheets c)
   && forallb2 (fun _ ch => on_legal ch) (wb_names wb) (oc_names c)
+  && forallb names_junk_ok (oc_names_junk c)
   && negb (wb_1904 wb).
 
-(* known class of the ods reader:
-   1  any event other than the named-range / named-expression elements inside
-      table:named-expressions (white space of a pretty-printed file, a comment) fails the open *)
-Definition known_ods (c : ods_choice) (wb : workbook str) : option N :=
-  match oc_names_junk c with
-  | [] => None
-  | _ => if oc_omit_names c && (match wb_names wb with [] => true | _ => false end)
-         then None else Some 1
-  end.
+(* no known class is left for ods (events inside table:named-expressions: repaired) *)
 
 (* ===================================================================================== *)
 (** * expected reports *)
